@@ -327,6 +327,53 @@ impl Check for C16 {
                 return Err(MachineryError(format!("C16: no accepted value succeeds for {}", k)));
             }
         }
+        // (5) a cell inside a longer expression: the operation that fails stops the expression
+        // there (operands to its right are not reached), and the kinds of a value written directly
+        // in an interpolation slot are the kinds of that value
+        let mut more = vec![];
+        for op in BINOPS.iter() {
+            for l in 0..nv {
+                for r in 0..nv {
+                    for (tail, tv) in [("+", "1"), ("&&", "true"), ("==", "null")] {
+                        more.push(Case::new(format!("{}fn t(v) {{\nprint(\"reached\")\nreturn v\n}}\na := {}\nb := {}\nprint(\"pre\")\nprint(a {} b {} t({}))\n", PRELUDE, vx(l), vx(r), op, tail, tv), 9, format!("chain a {} b {} t({}) with {} and {}", op, tail, tv, vx(l), vx(r))));
+                    }
+                    more.push(Case::new(format!("{}fn t(v) {{\nprint(\"reached\")\nreturn v\n}}\na := {}\nb := {}\nprint(\"pre\")\nprint([a {} b, t(1)])\nprint(\"post\")\n", PRELUDE, vx(l), vx(r), op), 9, format!("list item a {} b followed by t(1) with {} and {}", op, vx(l), vx(r))));
+                }
+            }
+        }
+        for k in 0..VALS_ALL.len() {
+            for form in ["$\"<${@}>\"", "$\"<${ @ }>\"", "$\"${@}${@}\"", "$\"a${(@)}\"", "$\"${[@][0]}\""] {
+                more.push(Case::new(format!("{}print(\"pre\")\nprint({})\nprint(\"post\")\n", PRELUDE, form.replace('@', vx(k))), 9, format!("value {} written in the slot of {}", vx(k), form)));
+            }
+        }
+        for lit in ["true", "false", "null", "0", "-1", "\"\"", "[]", "{}", "this", "print", "fn () {\nreturn \"s\"\n}", "truex", "nullify", "_"] {
+            for form in ["$\"<${@}>\"", "$\"<${ @ }>\"", "$\"${@}\"", "$\"${@}${@}\"", "$\"${(@)}\""] {
+                more.push(Case::new(format!("truex := \"tx\"\nnullify := \"nf\"\nprint(\"pre\")\nprint({})\nprint(\"post\")\n", form.replace('@', lit)), 9, format!("{} written in the slot of {}", lit, form)));
+            }
+        }
+        ctx.extra.insert("cells_inside_longer_expressions".into(), json!(more.len()));
+        ctx.judge(more, |c, r, o| {
+            if o.stdout != r.stdout || r.is_ok() != (o.class == Class::Ok) {
+                return viol("cell-in-context", format!("{}: printed {:?} and ended {:?} {}; the reference prints {:?} and {}", c.meta, o.out_str(), o.class, o.msg, String::from_utf8_lossy(&r.stdout), if r.is_ok() { "completes" } else { "reports an error" }));
+            }
+            // a kind error names the kinds it is about
+            if let RefResult::Err(e) = &r.result {
+                let first_line = o.msg.lines().next().unwrap_or("");
+                let kinds: Vec<&str> = match &e.kind {
+                    crate::refm::eval::EKind::CtxType(_, k) => vec![k.name()],
+                    crate::refm::eval::EKind::OpType { l, r, .. } | crate::refm::eval::EKind::EqType { l, r, .. } => vec![l.name(), r.name()],
+                    _ => vec![],
+                };
+                let mut rest = first_line;
+                for k in kinds {
+                    match find_word(rest, k) {
+                        Some(i) => rest = &rest[i..],
+                        None => return viol("diagnostic-operand-kinds", format!("{}: the operand kinds are wrong for this construct ('{}'), but the message {:?} does not name that kind", c.meta, k, first_line)),
+                    }
+                }
+            }
+            Verdict::Pass
+        })?;
         let rejected = judged.iter().filter(|j| !table_accepts(&j.case)).count();
         ctx.guard("some cell rejected and some accepted", rejected > 0 && rejected < judged.len());
         ctx.extra.insert("cells_rejected_by_table".into(), json!(rejected));
